@@ -2256,10 +2256,10 @@ XSLTEngineImpl::cloneToResultTree(
                             true,
                             locator);
                 }
-                else if (theBoundNamespace == 0 ||
-                         isPendingResultPrefix(thePrefix) == false)
+                else if (theBoundNamespace == 0)
                 {
-                    // The prefix can be declared on the pending element...
+                    // The prefix is not bound, so it can be declared on the
+                    // pending element...
                     createAndAddNamespaceResultAttribute(
                             *m_executionContext,
                             thePrefix,
@@ -2274,8 +2274,9 @@ XSLTEngineImpl::cloneToResultTree(
                 }
                 else
                 {
-                    // The prefix is in use for another namespace on the
-                    // pending element, so the attribute needs a new one...
+                    // The prefix is bound to another namespace.  Declaring it
+                    // again on the pending element would hide a namespace node
+                    // the element has, so the attribute needs a new one...
                     createFixedUpResultAttribute(
                             *m_executionContext,
                             node.getLocalName(),
